@@ -581,6 +581,8 @@ func (c *Ctx) c04Oracle() error {
 			fmt.Fprintf(&sk, "func decl() %s { var x %s = %d; return x }\nvar g %s = %d\nfunc gdecl() %s { return g }\nconst cc %s = %d\nfunc cdecl() %s { return cc }\n", T, T, K, T, K, T, T, K, T)
 			fmt.Fprintf(&sk, "func par(a %s) %s { return a }\nfunc callk() %s { return par(%d) }\n", T, T, T, K)
 			fmt.Fprintf(&sk, "type S struct { F %s }\nfunc fk() %s { s := &S{F: %d}; return s.F }\nfunc ek() %s { s := []%s{%d}; return s[0] }\n", T, T, K, T, T, K)
+			// a constant EXPRESSION as initialiser of a typed declaration (several instructions, one value)
+			fmt.Fprintf(&sk, "func dce() %s { var x %s = %d + 0; return x }\nvar gce %s = 1 * %d\nfunc gdce() %s { return gce }\nfunc dce2() %s { var a, b %s = %d - 0, 3; _ = b; return a }\nfunc dce3() %s { var a, b %s = 3, 0 + %d; _ = a; return b }\n", T, T, K, T, K, T, T, T, K, T, T, K)
 			// named constants declared without a type are untyped constants too
 			fmt.Fprintf(&sk, "const NK = %d\nconst NK2 = NK + 0\nfunc nkdecl() %s { var x %s = NK; return x }\nfunc nkop(a %s) %s { return a + NK2 }\nfunc nkpar() %s { return par(NK) }\nfunc nkret() %s { return NK }\n", K, T, T, T, T, T, T)
 			fmt.Fprintf(&sk, "func nkfld() %s { s := &S{F: NK}; return s.F }\nfunc nkel() %s { s := []%s{NK2}; return s[0] }\nfunc nkasg() %s { var x %s; x = NK; return x }\nfunc nklocal() %s { const lk = NK; var x %s = lk; return x }\n", T, T, T, T, T, T, T)
@@ -591,6 +593,9 @@ func (c *Ctx) c04Oracle() error {
 				fmt.Fprintf(&sk, "func resb%d(p %s, q %s) (%s, %s) { return %d, %d }\nfunc rbcall%d() %s { var z %s; a, b := resb%d(z, z); _ = a; return b }\n", pi, P, P, T, T, K, K, pi, T, P, pi)
 			}
 			s := newScript(sk.String())
+			for _, fn := range []string{"dce", "gdce", "dce2", "dce3"} {
+				check("typed-decl", fmt.Sprintf("%s: var x %s = <constant expression of value %d>", fn, T, K), s.call(fn), fmt.Sprintf("%d:%s", K, T))
+			}
 			for _, fn := range []string{"nkdecl", "nkpar", "nkret", "nkfld", "nkel", "nkasg", "nklocal"} {
 				check("named-const", fmt.Sprintf("const NK = %d; %s as %s", K, fn, T), s.call(fn), fmt.Sprintf("%d:%s", K, T))
 			}
